@@ -5,51 +5,61 @@ namespace CueVerif.ModCache
 theorem inv_mEnter {n s t c s' o} (h : Inv n s) (hp : s.pc t = .mEnter)
     (hn : next n s t c = some (s', o)) : Inv n s' := by
   open_next
-  all_goals step
+  all_goals step_pre
+  all_goals step_main
 
 theorem inv_mRead1 {n s t c s' o} (h : Inv n s) (hp : s.pc t = .mRead1)
     (hn : next n s t c = some (s', o)) : Inv n s' := by
   open_next
-  all_goals step
+  all_goals step_pre
+  all_goals step_main
 
 theorem inv_mLock {n s t c s' o} (h : Inv n s) (hp : s.pc t = .mLock)
     (hn : next n s t c = some (s', o)) : Inv n s' := by
   open_next
-  all_goals step
+  all_goals step_pre
+  all_goals step_main
 
 theorem inv_mRead2 {n s t c s' o} (h : Inv n s) (hp : s.pc t = .mRead2)
     (hn : next n s t c = some (s', o)) : Inv n s' := by
   open_next
-  all_goals step
+  all_goals step_pre
+  all_goals step_main
 
 theorem inv_mGet {n s t c s' o} (h : Inv n s) (hp : s.pc t = .mGet)
     (hn : next n s t c = some (s', o)) : Inv n s' := by
   open_next
-  all_goals step
+  all_goals step_pre
+  all_goals step_main
 
 theorem inv_mCreate {n s t c s' o} (h : Inv n s) (hp : s.pc t = .mCreate)
     (hn : next n s t c = some (s', o)) : Inv n s' := by
   open_next
-  all_goals step
+  all_goals step_pre
+  all_goals step_main
 
 theorem inv_mWrite {n s t c s' o k} (h : Inv n s) (hp : s.pc t = .mWrite k)
     (hn : next n s t c = some (s', o)) : Inv n s' := by
   open_next
-  all_goals step
+  all_goals step_pre
+  all_goals step_main
 
 theorem inv_mRename {n s t c s' o k} (h : Inv n s) (hp : s.pc t = .mRename k)
     (hn : next n s t c = some (s', o)) : Inv n s' := by
   open_next
-  all_goals step
+  all_goals step_pre
+  all_goals step_main
 
 theorem inv_mFail {n s t c s' o k} (h : Inv n s) (hp : s.pc t = .mFail k)
     (hn : next n s t c = some (s', o)) : Inv n s' := by
   open_next
-  all_goals step
+  all_goals step_pre
+  all_goals step_main
 
 theorem inv_mUnlock {n s t c s' o k} (h : Inv n s) (hp : s.pc t = .mUnlock k)
     (hn : next n s t c = some (s', o)) : Inv n s' := by
   open_next
-  all_goals step
+  all_goals step_pre
+  all_goals step_main
 
 end CueVerif.ModCache
